@@ -1,4 +1,6 @@
 import PlinioVerif.Lemmas.PIT.Sharing
+import PlinioVerif.Props.C01
+import Mathlib.Algebra.Group.Pi.Basic
 /-!
 # C01, network level — the exported network is the masked network restricted to alive channels
 
@@ -123,5 +125,74 @@ theorem non_zero_preserving_map_unsound :
     let r := runBoth shiftSem ms (fun _ => [5]) demoShift.zipIdx
     gv r.1 4 = [7] ∧ gv r.2 4 = [6] := by
   decide +kernel
+
+
+
+/-! ### channels and taps together
+
+The carrier of `net_export_equiv` is abstract; here it is instantiated with integer *signals*
+(`ℤ → ℤ`, zero before the first sample: causal padding) and the two executable convolutions of
+`Model/PIT/TimeMask.lean`: the PIT network applies, per (output, input) channel pair, the kernel
+multiplied by its time mask (`maskedConvAt`); the exported network applies the kernel `export`
+builds — surviving taps only, `kernel_size_opt`, `dilation_opt`, re-created left padding
+(`exportedConvAt`).  With both prunings at once, every node of the exported network is the PIT
+network's node restricted to its alive channels. -/
+
+/-- time-mask parameters, seed kernel size / dilation and weights of every conv node -/
+structure ConvParams where
+  K : ℕ → ℕ
+  d0 : ℕ → ℕ
+  β : ℕ → ℕ → ℚ
+  γ : ℕ → ℕ → ℚ
+  w : ℕ → ℕ → ℕ → ℕ → ℤ      -- node, out channel, in channel, tap
+  wd : ℕ → ℕ → ℕ → ℤ         -- depthwise: node, channel, tap
+
+/-- the searched network: masked kernels -/
+def pitSem (c : ConvParams) (base : Sem (ℤ → ℤ)) : Sem (ℤ → ℤ) :=
+  { base with
+    L := fun n co ci x τ => maskedConvAt (c.K n) (c.d0 n) (c.β n) (c.γ n) (c.w n co ci) x τ
+    D := fun n ch x τ => maskedConvAt (c.K n) (c.d0 n) (c.β n) (c.γ n) (c.wd n ch) x τ }
+
+/-- the exported network: pruned kernels with their own dilation and padding -/
+def expSem (c : ConvParams) (base : Sem (ℤ → ℤ)) : Sem (ℤ → ℤ) :=
+  { base with
+    L := fun n co ci x τ => exportedConvAt (c.K n) (c.d0 n) (c.β n) (c.γ n) (c.w n co ci) x τ
+    D := fun n ch x τ => exportedConvAt (c.K n) (c.d0 n) (c.β n) (c.γ n) (c.wd n ch) x τ }
+
+theorem pitSem_eq_expSem (c : ConvParams) (base : Sem (ℤ → ℤ)) (hK : ∀ n, 0 < c.K n) :
+    pitSem c base = expSem c base := by
+  unfold pitSem expSem
+  congr 1 <;> funext n a
+  · funext ci x τ
+    unfold maskedConvAt exportedConvAt
+    exact C01.conv1d_masked_eq_exported (c.K n) (c.d0 n) (hK n) (c.β n) (c.γ n) (c.w n a ci) x τ
+  · funext x τ
+    unfold maskedConvAt exportedConvAt
+    exact C01.conv1d_masked_eq_exported (c.K n) (c.d0 n) (hK n) (c.β n) (c.γ n) (c.wd n a) x τ
+
+/-- a masked convolution maps the zero signal to the zero signal -/
+theorem maskedConvAt_zero (K d0 : ℕ) (β γ : ℕ → ℚ) (w : ℕ → ℤ) :
+    (fun τ => maskedConvAt K d0 β γ w (0 : ℤ → ℤ) τ) = 0 := by
+  funext τ
+  unfold maskedConvAt
+  simp
+
+/-- **C01 with channels and taps pruned together**: the exported network (pruned kernels applied
+to the alive channels) is the searched network (masked kernels on all channels) restricted to its
+alive channels, node by node -/
+theorem net_export_equiv_conv1d (c : ConvParams) (base : Sem (ℤ → ℤ)) (hK : ∀ n, 0 < c.K n)
+    (inp : ℕ → List (ℤ → ℤ)) (p : Prog) (l : List ℕ) (α : ℕ → List Rat)
+    (hl : computeLabels p = some l) (hws : wellShaped p = true) (hsup : supported p = true)
+    (hsem : ∀ n (hn : n < p.length), SemOK (pitSem c base) (aliveMasks p l α) inp (p[n], n)) :
+    ∀ n < p.length,
+      gv (runBoth (expSem c base) (aliveMasks p l α) inp p.zipIdx).2 n
+        = compress (gm (aliveMasks p l α) n) (gv (runBoth (pitSem c base) (aliveMasks p l α) inp p.zipIdx).1 n) := by
+  intro n hn
+  rw [← pitSem_eq_expSem c base hK]
+  exact (net_export_equiv (pitSem c base) inp p l α hl hws hsup hsem n hn).1
+
+/-- the zero-preservation hypothesis of `SemOK` holds for the masked convolutions by construction -/
+theorem pitSem_conv_zero (c : ConvParams) (base : Sem (ℤ → ℤ)) (n co ci : ℕ) :
+    (pitSem c base).L n co ci 0 = 0 := maskedConvAt_zero _ _ _ _ _
 
 end PlinioVerif.C01Net
